@@ -10,7 +10,7 @@ COMMON_TRUSTED = [
 
 WORLD_RULE = ("sessions of 2-3 real go-git repositories sharing a bare remote: exhaustive fork shapes (common prefix 0..2, local suffix 0..3, remote suffix 0..3, "
               "three exchange orders; quick runs a third of them chosen by the seed) plus random sessions of 5..25 (thorough 40) actions over {new bug, edit (1-3 packs of 1-3 ops, "
-              "6 operation kinds, 1-3 authors), push, pull, remove}, 3 in 4 ending with a synchronisation round; non-trivial = at least one merge reported updated or a merge commit; "
+              "6 operation kinds, 1-3 authors), push, pull, remove, close/reopen, delete clock files + reopen with the clock loader}, 3 in 4 ending with a synchronisation round; non-trivial = at least one merge reported updated or a merge commit; "
               "distinct = distinct action list")
 WORLD_TRUSTED = ["modelled, not verified: go-git fetch/push (modelled as fast-forward-only ref copies, all-or-nothing push), sha-256 (ids compared through order-preserving ranks)",
                  "the harness reads the commit graph back through repository.RepoData using the documented tree-entry format, independently of dag.read"]
@@ -28,6 +28,24 @@ PROPS = {
         corr="Sync.sstep (over World.step) = bug.{Create,Read,Commit,Push,Fetch,MergeAll,Remove} on go-git repositories",
         rule=WORLD_RULE, trusted=COMMON_TRUSTED + WORLD_TRUSTED,
         assumptions=["identity merges are covered by the C09 check (same property, identity side)"],
+    ),
+    "C03": dict(
+        parts=[dict(driver="C03d", kmod="K_C03", shard=400, explain=True), dict(driver="C03w", kmod="K_C03w", shard=40, explain=True)],
+        case_timeout="300s",
+        corr="Read.read = bug.Read (crafted DAGs, go-git and in-memory backends); Sync.sstep = session actions",
+        rule="part 1: random commit DAGs of 1..9 commits (chains, forks, merges, unreachable commits, equal edit times) written through repository.RepoData in the documented format, "
+             "two thirds with one perturbation out of {equal/smaller clock, jump of exactly 10^6 / 10^6+1, jump on a merge, second root, missing create clock, merge with operations, "
+             "zero edit clock, create clock on a child, duplicated parent}, go-git or in-memory backend, each read 3 times; part 2: " + WORLD_RULE +
+             "; non-trivial = more than one commit / a merge happened",
+        trusted=COMMON_TRUSTED + WORLD_TRUSTED,
+        assumptions=["two commits with identical content are one git object: such generated inputs are skipped"],
+    ),
+    "C05": dict(
+        parts=[dict(driver="C05w", kmod="K_C05w", shard=40, explain=True)],
+        case_timeout="300s",
+        corr="Sync.sstep (over World.step, incl. AResetClock) = session actions incl. close/reopen with and without clock files",
+        rule=WORLD_RULE, trusted=COMMON_TRUSTED + WORLD_TRUSTED,
+        assumptions=["fewer than 10^6 increments per session; no remote serves a root commit with a forged huge clock (finding F-clock)"],
     ),
     "C20": dict(
         kmod="K_C20", driver="C20", shard=1500,
